@@ -38,11 +38,13 @@ CONSTANTS MaxNodes,      \* node ids 1..MaxNodes
 
 VARIABLES kind, ditems, litems, parent, pkey, sealed, accw, subs,
           sstk, astk, nstk,       \* scoped overrides: as_sealed / allow_writable_accessors / notify_on_change
-          out, evts, act          \* observation variables: result of the last call, events it delivered, the call itself
+          out, evts, act,         \* observation variables: result of the last call, events it delivered, the call itself
+          memo,                   \* memoised derived facts per node: <<valid, missing, nondefault, hasPlaceholder>>
+          facts                   \* observation variable: the derived facts a fresh computation gives (when "facts" \in Acts)
 
 tree == <<kind, ditems, litems, parent, pkey, sealed, accw, subs>>
-vars == <<kind, ditems, litems, parent, pkey, sealed, accw, subs, sstk, astk, nstk, out, evts, act>>
-view == <<kind, ditems, litems, parent, pkey, sealed, accw, subs, sstk, astk, nstk>>
+vars == <<kind, ditems, litems, parent, pkey, sealed, accw, subs, sstk, astk, nstk, out, evts, act, memo, facts>>
+view == <<kind, ditems, litems, parent, pkey, sealed, accw, subs, sstk, astk, nstk, memo>>
 
 NULL == 0
 MISSING == 98
@@ -60,7 +62,11 @@ St == [kind |-> kind, ditems |-> ditems, litems |-> litems, parent |-> parent,
 Alive(s) == {n \in Nodes : s.kind[n] # "free"}
 FreeSet(s) == {n \in Nodes : s.kind[n] = "free"}
 MinOf(S) == CHOOSE x \in S : \A y \in S : x <= y
-IsDictLike(s, n) == s.kind[n] \in {"dict", "obj"}
+IsDictLike(s, n) == s.kind[n] \in {"dict", "obj", "objb"}
+IsObj(s, n) == s.kind[n] \in {"obj", "objb"}
+PH == 150                        \* a search-space placeholder leaf (pg.oneof)
+\* test classes: A(x = None, y = None); B(z required -- no default, w = None), created with B.partial()
+DefaultOf(k, key) == IF k = "objb" /\ key = 1 THEN MISSING ELSE PNONE
 
 Slot(s, n) == IF IsDictLike(s, n) THEN {<<s.ditems[n][i][1], s.ditems[n][i][2]>> : i \in 1..Len(s.ditems[n])}
               ELSE IF s.kind[n] = "list" THEN {<<LKey(i - 1), s.litems[n][i]>> : i \in 1..Len(s.litems[n])}
@@ -106,7 +112,7 @@ Reindex(s, n) ==
 
 NewNode(s, r, k, par, key) ==
   [s EXCEPT !.kind[r] = k, !.ditems[r] = <<>>, !.litems[r] = <<>>, !.parent[r] = par, !.pkey[r] = key,
-            !.sealed[r] = FALSE, !.accw[r] = TRUE, !.subs[r] = (k = "obj")]
+            !.sealed[r] = FALSE, !.accw[r] = TRUE, !.subs[r] = (k \in {"obj", "objb"})]
 
 \* Symbolic clone of the subtree at m into free ids.  Every symbolic node is copied (deep and
 \* shallow clone differ only in leaf objects, which are values here).  Flags: Dict keeps
@@ -142,7 +148,7 @@ CloneIntoS(s, m, inh) ==       \* returns [s, root]; caller guarantees enough fr
        IN [s |-> F[Len(s.litems[m])], root |-> r]
 CloneInto(s, m) == CloneIntoS(s, m, FALSE)
 
-ShapeNeed(vd) == IF vd \in {200, 201, 210, 220} THEN 1 ELSE IF vd = 211 THEN 2 ELSE 0
+ShapeNeed(vd) == IF vd \in {200, 201, 210, 220, 221} THEN 1 ELSE IF vd = 211 THEN 2 ELSE 0
 
 \* does storing existing node vd under (holder, key) copy it?  `ins` = the write is an insertion.
 MustCopy(s, holder, key, vd, ins) ==
@@ -152,7 +158,7 @@ MustCopy(s, holder, key, vd, ins) ==
 
 \* Turn a value descriptor into a stored value under (holder, key): [ok, s, v]
 Formalize(s, holder, key, vd, ins) ==
-  IF ~IsRef(vd) /\ vd \notin {200, 201, 210, 211, 220} THEN [ok |-> TRUE, s |-> s, v |-> vd]
+  IF ~IsRef(vd) /\ vd \notin {200, 201, 210, 211, 220, 221} THEN [ok |-> TRUE, s |-> s, v |-> vd]
   ELSE IF ~IsRef(vd) THEN
     IF Cardinality(FreeSet(s)) < ShapeNeed(vd) THEN [ok |-> FALSE, s |-> s, v |-> vd]
     ELSE LET r == MinOf(FreeSet(s)) IN
@@ -164,6 +170,9 @@ Formalize(s, holder, key, vd, ins) ==
                        IN [ok |-> TRUE, s |-> [NewNode(s1, c, "dict", r, LKey(0)) EXCEPT !.litems[r] = <<c>>], v |-> r]
         [] vd = 220 -> [ok |-> TRUE,
                         s |-> [NewNode(s, r, "obj", holder, key) EXCEPT !.ditems[r] = << <<1, PNONE>>, <<2, PNONE>> >>],
+                        v |-> r]
+        [] vd = 221 -> [ok |-> TRUE,
+                        s |-> [NewNode(s, r, "objb", holder, key) EXCEPT !.ditems[r] = << <<1, MISSING>>, <<2, PNONE>> >>],
                         v |-> r]
   ELSE \* an existing node: relocate or copy
     IF MustCopy(s, holder, key, vd, ins) THEN
@@ -185,9 +194,10 @@ WriteD(s, n, k, vd) ==
   IN IF old = vd /\ IsRef(vd) THEN [ok |-> TRUE, s |-> s, ups |-> NoUpd]        \* same object: no update
      ELSE IF vd = MISSING THEN
        IF i = 0 THEN [ok |-> TRUE, s |-> s, ups |-> NoUpd]
-       ELSE IF s.kind[n] = "obj" THEN                                           \* field reset to its default (None)
-            LET s0 == Detach(s, old) IN
-            [ok |-> TRUE, s |-> [s0 EXCEPT !.ditems[n][i] = <<k, PNONE>>], ups |-> <<Upd(n, k, old, PNONE)>>]
+       ELSE IF IsObj(s, n) THEN                                                 \* field reset to its default
+            LET s0 == Detach(s, old)  dv == DefaultOf(s.kind[n], k) IN
+            IF old = dv THEN [ok |-> FALSE, s |-> s, ups |-> NoUpd]      \* resetting a field that already holds its default: not generated
+            ELSE [ok |-> TRUE, s |-> [s0 EXCEPT !.ditems[n][i] = <<k, dv>>], ups |-> <<Upd(n, k, old, dv)>>]
        ELSE LET s0 == Detach(s, old) IN
             [ok |-> TRUE, s |-> [s0 EXCEPT !.ditems[n] = RemoveIdx(@, i)], ups |-> <<Upd(n, k, old, MISSING)>>]
      ELSE IF ~OkTarget(s, n, vd) THEN [ok |-> FALSE, s |-> s, ups |-> NoUpd]
@@ -196,7 +206,7 @@ WriteD(s, n, k, vd) ==
               f == Formalize(s0, n, k, vd, FALSE)
               s1 == IF i = 0 THEN [f.s EXCEPT !.ditems[n] = Append(@, <<k, f.v>>)]
                     ELSE [f.s EXCEPT !.ditems[n][i] = <<k, f.v>>]
-          IN IF old = vd THEN [ok |-> TRUE, s |-> s, ups |-> NoUpd]             \* equal leaf objects: no update
+          IN IF old = vd /\ vd # PH THEN [ok |-> TRUE, s |-> s, ups |-> NoUpd]  \* the same (pooled) leaf object: no update; a placeholder is always a new object
              ELSE [ok |-> f.ok, s |-> s1, ups |-> <<Upd(n, k, old, f.v)>>]
 
 \* --- write primitive of a list: idx is a 0-based position (>= len appends); ins = insertion
@@ -209,7 +219,7 @@ WriteL(s, n, idx, vd0) ==
      ELSE IF ~OkTarget(s, n, vd) THEN [ok |-> FALSE, s |-> s, ups |-> NoUpd]
      ELSE IF at < len /\ ~ins THEN
        LET old == s.litems[n][at + 1] IN
-       IF old = vd THEN [ok |-> TRUE, s |-> s, ups |-> NoUpd]
+       IF old = vd /\ vd # PH THEN [ok |-> TRUE, s |-> s, ups |-> NoUpd]
        ELSE IF vd = MISSING THEN
             LET s0 == Detach(s, old) IN
             [ok |-> TRUE, s |-> Reindex([s0 EXCEPT !.litems[n] = RemoveIdx(@, at + 1)], n),
@@ -254,10 +264,35 @@ EventsOf(s, ups, self, notifyParents) ==
         ups |-> { <<Append(RelPath(s, r, ups[i].t), ups[i].k), ups[i].old, ups[i].new>> :
                    i \in {j \in 1..Len(ups) : r \in Receivers(s, ups[j])} }] : r \in shown }
 
+(* Derived facts: what a fresh computation on the current content gives.                     *)
+RECURSIVE HasPH(_,_)
+HasPH(s, n) == \E kv \in Slot(s, n) : kv[2] = PH \/ (IsRef(kv[2]) /\ HasPH(s, kv[2]))
+RECURSIVE MissingSet(_,_)
+MissingSet(s, n) ==
+  UNION { IF IsRef(kv[2]) THEN { <<kv[1]>> \o p : p \in MissingSet(s, kv[2]) }
+          ELSE IF s.kind[n] = "objb" /\ kv[1] = 1 /\ kv[2] = MISSING THEN { <<kv[1]>> } ELSE {} : kv \in Slot(s, n) }
+RECURSIVE NonDefaultSet(_,_)
+NonDefaultSet(s, n) ==
+  UNION { IF IsRef(kv[2]) THEN { <<kv[1]>> \o p : p \in NonDefaultSet(s, kv[2]) }
+          ELSE IF kv[2] = MISSING \/ (IsObj(s, n) /\ kv[2] = DefaultOf(s.kind[n], kv[1])) THEN {}
+          ELSE { <<kv[1]>> } : kv \in Slot(s, n) }
+NoFacts == <<FALSE, {}, {}, FALSE>>
+FactsOf(s, n) == <<TRUE, MissingSet(s, n), NonDefaultSet(s, n), HasPH(s, n)>>
+AllFacts(s) == IF "facts" \in Acts THEN [n \in Nodes |-> IF s.kind[n] = "free" THEN NoFacts ELSE FactsOf(s, n)]
+               ELSE [n \in Nodes |-> NoFacts]
+\* The memo of a node is dropped when its content, or the content of a descendant, is written.
+\* As coded at the pinned commit (Mirror) this happened only for the nodes a notification visited.
+ChangedNodes(s) == {n \in Nodes : s.kind[n] # kind[n] \/ s.ditems[n] # ditems[n] \/ s.litems[n] # litems[n]}
+MemoAfter(s, ev) ==
+  LET touched == IF Mirror THEN UNION {{e.recv} \cup Ancestors(s, e.recv) : e \in ev}
+                 ELSE UNION {({n} \cup Ancestors(s, n) \cup Ancestors(St, n)) : n \in ChangedNodes(s)}
+  IN [n \in Nodes |-> IF n \in touched \/ s.kind[n] = "free" THEN NoFacts ELSE memo[n]]
+
 Commit(s, o, ev) ==
   /\ kind' = s.kind /\ ditems' = s.ditems /\ litems' = s.litems /\ parent' = s.parent /\ pkey' = s.pkey
   /\ sealed' = s.sealed /\ accw' = s.accw /\ subs' = s.subs
   /\ out' = o /\ evts' = ev
+  /\ memo' = MemoAfter(s, ev) /\ facts' = AllFacts(s)
   /\ UNCHANGED <<sstk, astk, nstk>>
 Ok(ret) == [k |-> "ok", ret |-> ret]
 Err(e) == [k |-> e, ret |-> 0]
@@ -272,7 +307,7 @@ Done(w, self, ret) ==
 
 DictSet(n, k, vd) ==                       \* d[k] = v   /  d.k = v  /  obj.x = v
   /\ act' = <<"DictSet", n, k, vd>>
-  /\ "dict" \in Acts /\ IsDictLike(St, n) /\ (kind[n] = "obj" => k \in ObjKeys)
+  /\ "dict" \in Acts /\ IsDictLike(St, n) /\ (IsObj(St, n) => k \in ObjKeys)
   /\ IF TreatSealed(St, n) \/ ~AccW(St, n) THEN Fail("WPE")
      ELSE Done(WriteD(St, n, k, vd), n, 0)
 
@@ -393,7 +428,7 @@ ListReverse(n) ==                          \* l.reverse()
 
 ListSort(n) ==                             \* l.sort()  (leaf-only lists; others raise TypeError like list)
   /\ act' = <<"ListSort", n>>
-  /\ "perm" \in Acts /\ kind[n] = "list" /\ \A i \in 1..Len(litems[n]) : ~IsRef(litems[n][i])
+  /\ "perm" \in Acts /\ kind[n] = "list" /\ \A i \in 1..Len(litems[n]) : litems[n][i] \in 100..149
   /\ IF TreatSealed(St, n) THEN Fail("WPE")
      ELSE Commit([St EXCEPT !.litems[n] = SortInts(@)], Ok(0), {})
 
@@ -449,11 +484,13 @@ SortPV(pvs) ==  \* descending by first key (only used for list-rooted rebinds wi
 RebindOne(s, n, path, vd) ==    \* [ok, s, ups, err]
   LET holder == Lookup(s, n, SubSeq(path, 1, Len(path) - 1))
       key == path[Len(path)]
-  IN IF holder = NULL \/ ~IsRef(holder) THEN [ok |-> TRUE, s |-> s, ups |-> NoUpd, err |-> "KeyError"]
+  IN IF Len(path) = 2 /\ (\E kv \in Slot(s, n) : kv[1] = path[1] /\ kv[2] = PH)
+     THEN [ok |-> FALSE, s |-> s, ups |-> NoUpd, err |-> "none"]      \* paths into a placeholder object: not generated
+     ELSE IF holder = NULL \/ ~IsRef(holder) THEN [ok |-> TRUE, s |-> s, ups |-> NoUpd, err |-> "KeyError"]
      ELSE IF TreatSealed(s, holder) THEN [ok |-> TRUE, s |-> s, ups |-> NoUpd, err |-> "WPE"]
      ELSE IF IsDictLike(s, holder) THEN
           IF key >= 1000 THEN [ok |-> FALSE, s |-> s, ups |-> NoUpd, err |-> "none"]   \* int keys of dicts are not generated
-          ELSE IF s.kind[holder] = "obj" /\ key \notin ObjKeys
+          ELSE IF IsObj(s, holder) /\ key \notin ObjKeys
           THEN [ok |-> TRUE, s |-> s, ups |-> NoUpd, err |-> "KeyError"]
           ELSE LET w == WriteD(s, holder, key, IF IsIns(vd) THEN vd - INS ELSE vd) IN
                [ok |-> w.ok /\ ~IsIns(vd), s |-> w.s, ups |-> w.ups, err |-> "none"]
@@ -470,8 +507,8 @@ RebindSeq(s, n, pvs) ==
 
 Rebind(n, pvs, notifyParents, skip) ==
   /\ act' = <<"Rebind", n, pvs, notifyParents, skip>>
-  /\ "rebind" \in Acts /\ kind[n] \in {"dict", "list", "obj"}
-  /\ IF kind[n] = "obj" /\ TreatSealed(St, n) THEN Fail("WPE")
+  /\ "rebind" \in Acts /\ kind[n] # "free"
+  /\ IF IsObj(St, n) /\ TreatSealed(St, n) THEN Fail("WPE")
      ELSE LET ordered == IF kind[n] = "list" THEN SortPV(pvs) ELSE pvs
               w == RebindSeq(St, n, ordered)
           IN /\ w.ok
@@ -501,7 +538,7 @@ JsonRoundTrip(n) ==                        \* pg.from_json(pg.to_json(n)): a fre
          fresh == Desc(c.s, c.root)
          s1 == [c.s EXCEPT !.sealed = [m \in Nodes |-> IF m \in fresh THEN FALSE ELSE c.s.sealed[m]],
                            !.accw = [m \in Nodes |-> IF m \in fresh THEN TRUE ELSE c.s.accw[m]],
-                           !.subs = [m \in Nodes |-> IF m \in fresh THEN c.s.kind[m] = "obj" ELSE c.s.subs[m]]]
+                           !.subs = [m \in Nodes |-> IF m \in fresh THEN IsObj(c.s, m) ELSE c.s.subs[m]]]
      IN Commit(s1, Ok(c.root), {})
 
 Seal(n, b) ==                              \* n.seal(b): recursive
@@ -536,19 +573,26 @@ Forget(n) ==                               \* the user drops the handle of a det
                        !.subs = [m \in Nodes |-> IF m \in gone THEN FALSE ELSE subs[m]]],
             Ok(0), {})
 
+ReadFacts(n) ==                            \* is_partial / sym_missing() / sym_nondefault() / sym_puresymbolic on n: fills the memos below n
+  /\ act' = <<"ReadFacts", n>>
+  /\ "facts" \in Acts /\ kind[n] # "free" /\ ~memo[n][1]
+  /\ memo' = [m \in Nodes |-> IF m \in Desc(St, n) THEN FactsOf(St, m) ELSE memo[m]]
+  /\ out' = Ok(0) /\ evts' = {} /\ facts' = AllFacts(St)
+  /\ UNCHANGED <<tree, sstk, astk, nstk>>
+
 MaxScope == 2
 EnterSealed(a) == /\ act' = <<"EnterSealed", a>> /\ "scope" \in Acts /\ Len(sstk) < MaxScope /\ sstk' = Append(sstk, a)
-                  /\ out' = Ok(0) /\ evts' = {} /\ UNCHANGED <<tree, astk, nstk>>
+                  /\ out' = Ok(0) /\ evts' = {} /\ UNCHANGED <<tree, astk, nstk, memo, facts>>
 ExitSealed ==     /\ act' = <<"ExitSealed">> /\ "scope" \in Acts /\ sstk # <<>> /\ sstk' = SubSeq(sstk, 1, Len(sstk) - 1)
-                  /\ out' = Ok(0) /\ evts' = {} /\ UNCHANGED <<tree, astk, nstk>>
+                  /\ out' = Ok(0) /\ evts' = {} /\ UNCHANGED <<tree, astk, nstk, memo, facts>>
 EnterAccW(a) ==   /\ act' = <<"EnterAccW", a>> /\ "scope" \in Acts /\ Len(astk) < MaxScope /\ astk' = Append(astk, a)
-                  /\ out' = Ok(0) /\ evts' = {} /\ UNCHANGED <<tree, sstk, nstk>>
+                  /\ out' = Ok(0) /\ evts' = {} /\ UNCHANGED <<tree, sstk, nstk, memo, facts>>
 ExitAccW ==       /\ act' = <<"ExitAccW">> /\ "scope" \in Acts /\ astk # <<>> /\ astk' = SubSeq(astk, 1, Len(astk) - 1)
-                  /\ out' = Ok(0) /\ evts' = {} /\ UNCHANGED <<tree, sstk, nstk>>
+                  /\ out' = Ok(0) /\ evts' = {} /\ UNCHANGED <<tree, sstk, nstk, memo, facts>>
 EnterNotify(b) == /\ act' = <<"EnterNotify", b>> /\ "nscope" \in Acts /\ Len(nstk) < MaxScope /\ nstk' = Append(nstk, b)
-                  /\ out' = Ok(0) /\ evts' = {} /\ UNCHANGED <<tree, sstk, astk>>
+                  /\ out' = Ok(0) /\ evts' = {} /\ UNCHANGED <<tree, sstk, astk, memo, facts>>
 ExitNotify ==     /\ act' = <<"ExitNotify">> /\ "nscope" \in Acts /\ nstk # <<>> /\ nstk' = SubSeq(nstk, 1, Len(nstk) - 1)
-                  /\ out' = Ok(0) /\ evts' = {} /\ UNCHANGED <<tree, sstk, astk>>
+                  /\ out' = Ok(0) /\ evts' = {} /\ UNCHANGED <<tree, sstk, astk, memo, facts>>
 
 ---------------------------------------------------------------------------
 VD == Leafs \cup Shapes \cup {m \in Nodes : kind[m] # "free"}
@@ -572,10 +616,12 @@ IK_Dict == <<"dict">>
 IK_List == <<"list">>
 IK_Obj == <<"obj">>
 IK_ObjList == <<"obj", "list">>
+IK_ObjbDict == <<"objb", "dict">>
 
 Init ==
   /\ kind = [n \in Nodes |-> IF n <= Len(InitKinds) THEN InitKinds[n] ELSE "free"]
-  /\ ditems = [n \in Nodes |-> IF n <= Len(InitKinds) /\ InitKinds[n] = "obj" THEN << <<1, PNONE>>, <<2, PNONE>> >> ELSE <<>>]
+  /\ ditems = [n \in Nodes |-> IF n <= Len(InitKinds) /\ InitKinds[n] = "obj" THEN << <<1, PNONE>>, <<2, PNONE>> >>
+                              ELSE IF n <= Len(InitKinds) /\ InitKinds[n] = "objb" THEN << <<1, MISSING>>, <<2, PNONE>> >> ELSE <<>>]
   /\ litems = [n \in Nodes |-> <<>>]
   /\ parent = [n \in Nodes |-> NULL]
   /\ pkey = [n \in Nodes |-> NULL]
@@ -584,6 +630,8 @@ Init ==
   /\ subs = [n \in Nodes |-> n <= Len(InitKinds)]      \* the harness gives every root it creates a callback
   /\ sstk = <<>> /\ astk = <<>> /\ nstk = <<>>
   /\ out = Ok(0) /\ evts = {} /\ act = <<"Init">>
+  /\ memo = [n \in Nodes |-> NoFacts]
+  /\ facts = AllFacts(St)
 
 P(S) == IF SimK = 0 \/ S = {} THEN S ELSE RandomSubset(PMin(SimK, Cardinality(S)), S)
 \* family / kind guards come before the parameter quantifiers so that TLC does not enumerate
@@ -619,6 +667,7 @@ NextAny(n) ==
      \/ Has("json") /\ JsonRoundTrip(n)
      \/ Has("flags") /\ \E b \in P(BOOLEAN) : Seal(n, b) \/ SetAccW(n, b)
      \/ Has("forget") /\ Forget(n)
+     \/ Has("facts") /\ ReadFacts(n)
 NextScope ==
   \/ Has("scope") /\ (\/ \E a \in P({"T", "F", "N"}) : EnterSealed(a) \/ EnterAccW(a)
                        \/ ExitSealed \/ ExitAccW)
@@ -700,6 +749,9 @@ ContentLocality ==
   [][act'[1] \in TreeActs =>
        \A m \in Alive(St) : (m \notin Desc(St, RootOf(St, act'[2])) /\ kind'[m] # "free")
                                => (ditems'[m] = ditems[m] /\ litems'[m] = litems[m] /\ sealed'[m] = sealed[m] /\ accw'[m] = accw[m])]_vars
+
+(* C09: a memoised fact is what a fresh computation gives *)
+Fresh == \A n \in Alive(St) : memo[n][1] => memo[n] = FactsOf(St, n)
 
 (* C09: events are delivered only to subscribing ancestors-or-self of a changed location,
    at most one per receiver, never when notification is off.                              *)
